@@ -195,12 +195,19 @@ func writeIfChanged(path string, content []byte) error {
 }
 
 func (a *analysis) render() *jOut {
-	out := &jOut{Repo: a.l.root}
+	out := &jOut{Repo: a.l.root, Failing: []jSite{}, FailingStrict: []jSite{}, ExemptUnused: []string{}}
 	usedExempt := map[string]bool{}
 	for _, d := range a.doms {
-		jd := jDomain{Name: d.cfg.Name, Note: d.cfg.Note, Methods: d.methods(), Unknowns: d.unknowns, Notes: d.notes}
+		jd := jDomain{Name: d.cfg.Name, Note: d.cfg.Note, Methods: d.methods(), Unknowns: d.unknowns, Notes: d.notes, Nodes: []jNode{}}
+		if jd.Unknowns == nil {
+			jd.Unknowns = []string{}
+		}
+		if jd.Notes == nil {
+			jd.Notes = []string{}
+		}
 		for _, n := range d.order {
-			jn := jNode{Key: n.Key, Ctx: n.Ctx, Where: n.Where, Assumes: strs(n.Assumes), StrictAssumes: strs(n.StrictAssumes)}
+			jn := jNode{Key: n.Key, Ctx: n.Ctx, Where: n.Where, Assumes: strs(n.Assumes), StrictAssumes: strs(n.StrictAssumes),
+				Entries: []jEntry{}, Sites: []jSite{}, Calls: []jCall{}}
 			for i := range n.Entries {
 				e := &n.Entries[i]
 				k := d.entryKey(n, e)
